@@ -365,6 +365,7 @@ func checkC12(w *World, r *Report) {
 	checkMacroTableWriters(w, r)
 	checkQualifiedCallsKeepQualifier(w, r)
 	checkImportBindsVariable(w, r)
+	checkMacroRegistersItself(w, r)
 	checkChainWalkBounds(w, r, "R12.8")
 }
 
@@ -1279,4 +1280,71 @@ func checkImportBindsVariable(w *World, r *Report) {
 		}
 	}
 	r.floor("ImportNode.Render methods", n, 1)
+}
+
+// checkMacroRegistersItself — R12.13: a macro definition that is rendered takes its name.  In
+// MacroNode.Render the store into the context's macro table under the node's name is not
+// controlled by what the table already holds: "only if the name is still free" keeps the macro
+// an included partial or an earlier `from … import` bound, so a template calls somebody else's
+// macro instead of the one it defines.
+func checkMacroRegistersItself(w *World, r *Report) {
+	n := 0
+	for _, fn := range w.pkgFuncs() {
+		if fn.Name() != "Render" || fn.Signature.Recv() == nil || !isNamed(fn.Signature.Recv().Type(), twigPath, "MacroNode") || fn.Synthetic != "" {
+			continue
+		}
+		check := func(in ssa.Instruction, where *ssa.Function) {
+			n++
+			bad := ""
+			for _, c := range controllingConds(in) {
+				seen := map[ssa.Value]bool{}
+				var walk func(v ssa.Value, d int)
+				walk = func(v ssa.Value, d int) {
+					if v == nil || seen[v] || d > 6 || bad != "" {
+						return
+					}
+					seen[v] = true
+					if l, ok := v.(*ssa.Lookup); ok {
+						if _, ok := fieldLoad(l.X, "RenderContext", "macros"); ok {
+							bad = w.posOf(l.Pos())
+							return
+						}
+					}
+					if c, ok := v.(*ssa.Call); ok {
+						if g := calleeFunc(c); g != nil && g.Name() == "GetMacro" {
+							bad = w.posOf(c.Pos())
+							return
+						}
+					}
+					if vi, ok := v.(ssa.Instruction); ok {
+						for _, op := range vi.Operands(nil) {
+							if *op != nil {
+								walk(*op, d+1)
+							}
+						}
+					}
+				}
+				walk(c, 0)
+			}
+			construct := "the definition is registered whatever the table holds"
+			if bad == "" {
+				r.ok("R12.13", ssaName(where), construct, w.posOf(in.Pos()), "not controlled by a lookup in the macro table", true)
+			} else {
+				r.bad("R12.13", ssaName(where), construct, w.posOf(in.Pos()), "whether the macro is registered depends on a lookup of the macro table ("+bad+"): where the name is already bound — by the includer, by an earlier import — the definition is skipped and calls of the name reach the other macro")
+			}
+		}
+		instrsOf(fn, func(in ssa.Instruction) {
+			if mu, ok := in.(*ssa.MapUpdate); ok {
+				if _, ok := fieldLoad(mu.Map, "RenderContext", "macros"); ok {
+					check(in, fn)
+				}
+			}
+			if c, ok := in.(*ssa.Call); ok {
+				if g := calleeFunc(c); g != nil && g.Name() == "SetMacro" {
+					check(in, fn)
+				}
+			}
+		})
+	}
+	r.floor("registrations in MacroNode.Render", n, 1)
 }
